@@ -27,6 +27,7 @@ RULE = ('cases = one segment (generic / collinear with and without fold-back, dy
         'cusp cubic / eccentric and rotated arcs) with sub-intervals {[0,1],[0,t],[t,1],[t,t],[a,b], straddling the cusp}, or a '
         'path; every length(t0,t1) call is judged against the bracket and the quadrature; run with scipy and with scipy blocked; '
         'distinct by (config, spec, intervals); non-trivial if an oracle verdict was reached')
+RULE += '; nearly straight quadratics, hairpin cubics, loop segments inside paths, edits through the Path interface between length queries'
 ASSUMPTIONS = ['vt/ref/quad.py: the bracket is rigorous up to float summation slack (64*eps*N*scale is added)',
                'the absolute tolerance requested by the call (error=1e-12 by default) is honoured as an absolute slack',
                'fallback configuration: inputs limited to |coord| <= 100 (the recursion to error=1e-12 explodes beyond; a watchdog reports that as inconclusive)']
